@@ -16,8 +16,18 @@
 (* frequent_items_sketch.hpp (also C12); "C09:..." = serialization.        *)
 (***************************************************************************)
 EXTENDS FreqItems, TraceCommon
-VARIABLES blob
-tvars == <<obj, l, blob>>
+CONSTANT CheckDesign   \* TRUE only in the tier-B configuration (TraceFreqItemsB.cfg): "B:" clauses compare the logged post-state with
+                       \* the mechanism of the design model (FreqItemsMech, code constants) applied to the logged pre-state, and
+                       \* with the expected state carried by replayed generated behaviours (x* fields); a rejection there is
+                       \* MODEL-DRIFT, never a violation
+VARIABLES blob, lgc    \* lgc[i]: logged lg_cur_map_size of object i (design-level observable)
+tvars == <<obj, l, blob, lgc>>
+M == INSTANCE FreqItemsMech
+SetLg(i, v) == lgc' = (i :> v) @@ lgc
+MapState(o, i) == [cnt |-> o.cnt, lgCur |-> lgc[i], lgMax |-> o.lgMax, offset |-> o.offset]
+DesignPost(e, c2, x) == /\ Chk("B:design-rows", c2 = x.cnt)
+                        /\ Chk("B:design-offset", e.off = x.offset)
+                        /\ Chk("B:design-lg-cur", e.lgCur = x.lgCur)
 
 \* rows after the event = rows before, overridden by the logged difference
 DeltaFn(d) == [x \in {d[p][1] : p \in DOMAIN d} |-> (d[CHOOSE p \in DOMAIN d : d[p][1] = x])[2]]
@@ -54,10 +64,27 @@ RowsOK(rows, o, off) ==
   /\ Chk("ub-lb=maximum-error", \A k \in DOMAIN rows : rows[k][4] - rows[k][3] = off)
   /\ Chk("descending-estimate", NonInc([k \in DOMAIN rows |-> rows[k][2]]))
 
-TBegin == IsEvent("Begin") /\ obj' = <<>> /\ blob' = <<>>
+\* expected state carried by a replayed behaviour of the design model
+GeneratedOK(e, c2) == IF CheckDesign /\ Has(e, "xOff")
+  THEN /\ Chk("B:generated-offset", e.off = e.xOff) /\ Chk("B:generated-num-active", e.n = e.xN)
+       /\ Chk("B:generated-lg-cur", e.lgCur = e.xLgCur) /\ Chk("B:generated-total", e.total = e.xTotal)
+       /\ Chk("B:generated-rows", c2 = Dense(e.xCnt))
+  ELSE TRUE
+DesignUpdate(e, o, c2) == IF ~CheckDesign THEN TRUE
+  ELSE DesignPost(e, c2, M!InsH(MapState(o, e.id), e.x, e.w, e.off - o.offset))
+\* merge replays the other's rows in its table order (logged: order of the items in its image); deterministic while the
+\* target map has at most 1024 slots
+DesignMerge(e, o, p, c2) == IF ~CheckDesign \/ o.lgMax > LgSample THEN TRUE
+  ELSE IF p.total = 0 THEN DesignPost(e, c2, MapState(o, e.dst))
+  ELSE /\ Chk("B:merge-order-is-others-rows", ToSet(e.ord) = DOMAIN p.cnt /\ Len(e.ord) = Cardinality(DOMAIN p.cnt))
+       /\ DesignPost(e, c2, M!MergeMaps(MapState(o, e.dst), e.ord, p.cnt, p.offset))
+
+TBegin == IsEvent("Begin") /\ obj' = <<>> /\ blob' = <<>> /\ lgc' = <<>>
 TNew == IsEvent("New") /\ LET e == Log[l] IN
           /\ New(e.id, e.lgMax)
           /\ Scalars(e, obj'[e.id])
+          /\ (IF CheckDesign THEN Chk("B:design-lg-cur", e.lgCur = M!StartLg(e.lgStart, M!CodeLgMin)) ELSE TRUE)
+          /\ SetLg(e.id, e.lgCur)
           /\ UNCHANGED blob
 TUpdate == IsEvent("Update") /\ LET e == Log[l]
                                     c2 == NewRows(obj[e.id].cnt, e)
@@ -67,11 +94,17 @@ TUpdate == IsEvent("Update") /\ LET e == Log[l]
           /\ Update(e.id, e.x, e.w, c2, e.off)
           /\ Scalars(e, obj'[e.id])
           /\ Chk("doc-lb-touched", e.lbx = Get(c2, e.x))
+          /\ DesignUpdate(e, obj[e.id], c2)
+          /\ GeneratedOK(e, c2)
+          /\ SetLg(e.id, e.lgCur)
           /\ UNCHANGED blob
 TUpdateZero == IsEvent("UpdateZero") /\ LET e == Log[l] IN
           /\ UpdateZero(e.id)
           /\ Chk("zero-weight-ignored", NoChange(e))
           /\ Scalars(e, obj[e.id])
+          /\ (IF CheckDesign THEN Chk("B:design-lg-cur", e.lgCur = lgc[e.id]) ELSE TRUE)
+          /\ GeneratedOK(e, obj[e.id].cnt)
+          /\ SetLg(e.id, e.lgCur)
           /\ UNCHANGED blob
 TMerge == IsEvent("Merge") /\ LET e == Log[l]
                                   c2 == NewRows(obj[e.dst].cnt, e)
@@ -81,6 +114,8 @@ TMerge == IsEvent("Merge") /\ LET e == Log[l]
           /\ Chk("epsilon", EpsOK(n))
           /\ Merge(e.dst, e.src, c2, e.off)
           /\ Scalars(e, obj'[e.dst])
+          /\ DesignMerge(e, obj[e.dst], obj[e.src], c2)
+          /\ SetLg(e.dst, e.lgCur)
           /\ UNCHANGED blob
 TObs == IsEvent("Obs") /\ LET e == Log[l]  o == obj[e.id]  rf == RowsFn(e) IN
           /\ Scalars(e, o)
@@ -109,22 +144,24 @@ TObs == IsEvent("Obs") /\ LET e == Log[l]  o == obj[e.id]  rf == RowsFn(e) IN
                   ELSE /\ Chk("no-false-positives", \A x \in got : Get(o.truth, x) > f.thr)
                        /\ Chk("doc-nfp-set", got = FreqNFP(o, f.thr))
                /\ Chk("doc-default-threshold", f.dflt => f.thr = e.off)
-          /\ UNCHANGED <<obj, blob>>
+          /\ UNCHANGED <<obj, blob, lgc>>
 TCopy == IsEvent("Copy") /\ LET e == Log[l] IN
           /\ Copy(e.src, e.dst)
           /\ Scalars(e, obj'[e.dst])
           /\ Chk("driver:dense-rows", DenseOK(e))
           /\ Chk("copy-rows", RowsFn(e) = obj[e.src].cnt)
+          /\ (IF CheckDesign THEN Chk("B:design-lg-cur", e.lgCur = lgc[e.src]) ELSE TRUE)
+          /\ SetLg(e.dst, e.lgCur)
           /\ UNCHANGED blob
-TDrop == IsEvent("Drop") /\ LET e == Log[l] IN Destroy(e.id) /\ UNCHANGED blob
+TDrop == IsEvent("Drop") /\ LET e == Log[l] IN Destroy(e.id) /\ UNCHANGED <<blob, lgc>>
 
 \* ---- C09 ------------------------------------------------------------------------------------
 TSer == IsEvent("Ser") /\ LET e == Log[l] IN
           /\ Chk("C09:bytes=stream", e.img = e.simg)
           /\ Chk("C09:advertised-size", e.size = e.adv)
           /\ Chk("C09:header", e.tot = e.hdr + e.size /\ e.img = e.img0)
-          /\ blob' = (e.blob :> [st |-> obj[e.src], cimg |-> e.cimg, size |-> e.size]) @@ blob
-          /\ UNCHANGED obj
+          /\ blob' = (e.blob :> [st |-> obj[e.src], cimg |-> e.cimg, size |-> e.size, lgCur |-> lgc[e.src]]) @@ blob
+          /\ UNCHANGED <<obj, lgc>>
 TDeser == IsEvent("Deser") /\ LET e == Log[l]  b == blob[e.blob] IN
           /\ Chk("C09:total-weight", e.total = b.st.total)
           /\ Chk("C09:maximum-error", e.off = b.st.offset)
@@ -136,13 +173,15 @@ TDeser == IsEvent("Deser") /\ LET e == Log[l]  b == blob[e.blob] IN
           /\ Chk("C09:consumed", e.consumed = b.size)
           /\ Chk("C09:reserialize", e.recimg = b.cimg)
           /\ obj' = (e.dst :> b.st) @@ [x \in Live \ {e.dst} |-> obj[x]]
+          /\ (IF CheckDesign THEN Chk("B:design-lg-cur", e.lgCur = b.lgCur) ELSE TRUE)
+          /\ SetLg(e.dst, e.lgCur)
           /\ UNCHANGED blob
 \* original and restored object after the same continued operations (deterministic while maps <= purge sample)
 TTwinObs == IsEvent("TwinObs") /\ LET e == Log[l]  a == obj[e.a]  b == obj[e.b] IN
           /\ Chk("C09:twin-equal", a.lgHi <= LgSample => a.cnt = b.cnt /\ a.offset = b.offset /\ a.total = b.total)
-          /\ UNCHANGED <<obj, blob>>
+          /\ UNCHANGED <<obj, blob, lgc>>
 
-TInit == obj = <<>> /\ l = 1 /\ blob = <<>>
+TInit == obj = <<>> /\ l = 1 /\ blob = <<>> /\ lgc = <<>>
 TNext == TBegin \/ TNew \/ TUpdate \/ TUpdateZero \/ TMerge \/ TObs \/ TCopy \/ TDrop \/ TSer \/ TDeser \/ TTwinObs
 TSpec == TInit /\ [][TNext]_tvars
 ====
